@@ -198,6 +198,12 @@ func runC06(c *sim.Ctx) *sim.Violation {
 		consumed = func() int { return r.Delivered - br.Buffered() }
 		c.Count("probe.read-through-bufio.Reader")
 	}
+	if rd == io.Reader(r) && t.Bool(1, 4) {
+		// the stream seen as a connection that could also be closed: closing it is the
+		// program's business, never the decoder's (not even after a malformed frame)
+		rd = &link.Conn{R: r}
+		c.Count("probe.read-from-a-closable-connection")
+	}
 	seqSig := ""
 	for k, f := range frames {
 		typ := typeName(f[0] >> 4)
@@ -240,6 +246,9 @@ func runC06(c *sim.Ctx) *sim.Violation {
 		if got.Kind == "shape" {
 			return sim.V(fmt.Sprintf("C06/%s/packet-and-error", typ), "%s", desc())
 		}
+	}
+	if r.Closed {
+		return sim.V("C06/sequence/the-reader-was-closed", "ReadPacket closed the stream it was reading from (frames: %v)", kinds)
 	}
 	if consumed() != len(stream)-len(trailing) {
 		return sim.V("C06/sequence/trailing-bytes-touched", "after %d calls for %d frames %d bytes of the stream were consumed, frames total %d",
